@@ -32,6 +32,7 @@ CONSTANTS Paths,      \* every path of the configuration tree the model knows
                       \*                6 = the gateway's built-in default metrics file (outside Backup/Restore)
           Inert,      \* files in a sub-directory of a directory the engine reads at the top level only (flows, quotas):
                       \* part of the tree, Backup / Restore / clean-up see them, no engine ever loads them
+          CleanSkips, \* (deviation, {} in the code) files the clean-up of /apply_flows leaves in place
           Unseen,     \* (deviation, {} in the code) files Backup's snapshot and Restore's comparison do not look at
           Txns,       \* probe transaction ids
           RestoreWrongDirection, PublishBeforeInit, ContinueAfter405, ApplyNoBackup, NoReloadAfterRestore,
@@ -79,7 +80,7 @@ Load(cs) ==
     /\ todo' = {} /\ todoR' = {} /\ sub' = "" /\ wp' = "" /\ hapLeft' = 0
     /\ cnt' = [pt \in Points |-> 0] /\ fired' = FALSE /\ faultPending' = FALSE
     /\ open' = {} /\ closed' = {}
-    /\ p' = PStart(Flows, cs) /\ viol' = {}
+    /\ p' = PStartF(Flows, cs, {Dx}) /\ viol' = {}
 
 \* a HISTORY of updates on one gateway: the next update starts from whatever the previous one left - tree, active engine
 \* and the backup object - and is judged against that tree ("all or nothing" holds for every update of a history).
@@ -90,7 +91,7 @@ Present(d) == [q \in {r \in DOMAIN d : d[r] # "none"} |-> d[q]]
 LoadNext(cs) ==
     /\ pc = "done" /\ ~p.exempt
     /\ LET nc == [cs EXCEPT !.disk = Present(disk), !.tree = TreeOf(disk), !.n = c.n + 1, !.prev = IF RecordHistory THEN Append(c.prev, Brief(c)) ELSE << >>] IN
-       /\ c' = nc /\ p' = PStart(Flows, nc)
+       /\ c' = nc /\ p' = PStartF(Flows, nc, {Dx})
     /\ pc' = "idle" /\ nxt' = "" /\ sigc' = 0 /\ after' = "" /\ round' = 1
     /\ UNCHANGED <<disk, backup, active>>
     /\ todo' = {} /\ todoR' = {} /\ sub' = "" /\ wp' = "" /\ hapLeft' = 0
@@ -162,7 +163,7 @@ Backup == /\ pc = "backup" /\ Step("parse")
 ParseBad == pc = "parse" /\ c.badb64 # {} /\ GoSignal(400, "reply") /\ Same /\ NoHit /\ NoObs
 ParseOK  == /\ pc = "parse" /\ c.badb64 = {}
             /\ IF ApplyEP
-               THEN Step("clean") /\ todo' = {q \in Managed : disk[q] # "none" \/ Cat[q] >= 4}
+               THEN Step("clean") /\ todo' = {q \in Managed \ CleanSkips : disk[q] # "none" \/ Cat[q] >= 4}
                ELSE Step("save") /\ todo' = DOMAIN c.payload
             /\ UNCHANGED <<c, after, round, disk, backup, active, todoR, sub, wp, hapLeft>> /\ NoHit /\ NoObs
 
@@ -205,8 +206,12 @@ SaveDone ==
     /\ UNCHANGED <<c, after, round, disk, backup, active, todo, todoR, sub, wp, hapLeft>> /\ NoHit /\ NoObs
 
 \* reloadFlows: dry-run validation, build+switch, health check, HAProxy endpoints, metrics reload
-Valid == /\ \A f \in Flows : disk[f] \notin {"bad", "junk"}
-         /\ disk[Gw] # "gbad"
+\* placeholders: e0 = zero-length file, ws = whitespace only, cm = comment only.  The loaders accept an empty gateway config
+\* and empty path-parameter files; flows and (top-level) quota files must have content; files no engine reads may hold anything
+Hollow == {"e0", "ws", "cm"}
+Valid == /\ \A f \in Flows : disk[f] \notin {"bad", "junk"} \cup Hollow
+         /\ \A q \in Paths : (Cat[q] = 2 /\ q \notin Inert) => disk[q] \notin Hollow
+         /\ disk[Gw] \notin {"gbad", "ws", "cm"}
 \* after the roll-back's reload /configuration reports 500 in any case (a second, ignored WriteHeader); /apply_flows only logs
 EndRound2 == IF ApplyEP THEN pc' = "reply" /\ UNCHANGED <<nxt, sigc>> ELSE GoSignal(500, "reply")
 Fail == IF round = 1
@@ -315,6 +320,7 @@ DiskAtomic  == "DiskAtomic" \notin viol
 BehavAtomic == "BehavAtomic" \notin viol
 NeverHalf   == "NeverHalf" \notin viol
 OneConfig   == "OneConfig" \notin viol
+Complete    == "Complete" \notin viol
 
 \* witnesses (expected to be VIOLATED): the antecedents of the clauses are reachable
 WitnessOpenTxnServedByNew == ~(\E k \in DOMAIN p.reqBy : p.reqBy[k] = "new" /\ p.st = "ok")
